@@ -32,6 +32,7 @@ type solveCfg struct {
 	timeoutS int
 	agree    int // number of solver builds that must say unsat (thorough: 2)
 	workers  int
+	lemmas   []*Lemma
 }
 
 func runSolver(sp solverSpec, file string, timeoutS int) (verdict, output string, ms int64) {
@@ -106,7 +107,11 @@ func solveAll(obls []*Obligation, cfg solveCfg) {
 }
 
 func solveOne(o *Obligation, cfg solveCfg) {
-	src := EmitSMT(o.Hyps, o.Goal, true)
+	hyps := o.Hyps
+	if !o.ExpectSat {
+		hyps = append(append([]*Term(nil), lemmasFor(cfg.lemmas, o)...), hyps...)
+	}
+	src := EmitSMT(hyps, o.Goal, true)
 	hdr := fmt.Sprintf("; obligation %s\n; pos %s\n; clause %s\n; %s\n", o.Name, o.Pos, o.Clause, o.Descr)
 	if err := os.WriteFile(o.SMT, []byte(hdr+src), 0o644); err != nil {
 		o.Status, o.Output = "unknown", err.Error()
@@ -124,34 +129,68 @@ func solveOne(o *Obligation, cfg solveCfg) {
 		}
 		return
 	}
+	type res struct {
+		sp      solverSpec
+		v, out  string
+		ms      int64
+	}
+	ch := make(chan res, len(solvers))
+	launch := func(sp solverSpec) {
+		go func() {
+			v, out, ms := runSolver(sp, o.SMT, cfg.timeoutS)
+			ch <- res{sp, v, out, ms}
+		}()
+	}
+	t0 := time.Now()
+	launch(solvers[0])
+	launched := 1
+	pending := 1
 	unsat := 0
 	var names []string
-	var total int64
-	for i, sp := range solvers {
-		v, out, ms := runSolver(sp, o.SMT, cfg.timeoutS)
-		total += ms
-		switch v {
-		case "unsat":
-			unsat++
-			names = append(names, sp.name)
-		case "sat":
-			if i == 0 || o.Model == "" {
-				o.Model = out
+	timer := time.NewTimer(1500 * time.Millisecond)
+	if cfg.agree > 1 {
+		timer.Reset(0)
+	}
+	defer timer.Stop()
+	for pending > 0 {
+		select {
+		case <-timer.C:
+			for launched < len(solvers) {
+				launch(solvers[launched])
+				launched++
+				pending++
 			}
-			o.Status = "refuted"
-			o.Solver = sp.name
-			o.Ms = total
-			o.Output = out
-			return
-		default:
-			o.Output += fmt.Sprintf("[%s: %s] %s\n", sp.name, v, firstLines(out, 3))
-		}
-		if unsat >= cfg.agree {
-			break
+		case r := <-ch:
+			pending--
+			switch r.v {
+			case "unsat":
+				unsat++
+				names = append(names, r.sp.name)
+			case "sat":
+				o.Model = r.out
+				o.Status = "refuted"
+				o.Solver = r.sp.name
+				o.Ms = time.Since(t0).Milliseconds()
+				o.Output = r.out
+				return
+			default:
+				o.Output += fmt.Sprintf("[%s: %s] %s\n", r.sp.name, r.v, firstLines(r.out, 3))
+				if launched < len(solvers) {
+					// first solver gave up early: start the others now
+					for launched < len(solvers) {
+						launch(solvers[launched])
+						launched++
+						pending++
+					}
+				}
+			}
+			if unsat >= cfg.agree {
+				pending = 0
+			}
 		}
 	}
-	o.Ms = total
-	if unsat >= cfg.agree || (unsat > 0 && cfg.agree <= 1) {
+	o.Ms = time.Since(t0).Milliseconds()
+	if unsat >= cfg.agree {
 		o.Status = "proved"
 		o.Solver = strings.Join(names, "+")
 		return
